@@ -97,6 +97,9 @@ def probe(m):
 
 
 def observe(m):
+    for lst in (m.parameters(), m.outputs()):
+        if isinstance(lst, list):
+            lst.append('appended by the caller')
     obs = {
         'adm': m.administration(), 'reg': reg_events(m), 'outputs': m.outputs(),
         'params': m.parameters(), 'n_par': m.n_parameters(),
@@ -165,6 +168,31 @@ def apply_op(kind, m, mach, op, others, viol, hist_label):
         if op.startswith('adm'):
             comp = K['comps'][1] if op.endswith('2') else K['comps'][0]
             direct = not op.startswith('admI')
+            if direct and mach.outs and any(o.startswith('dose.')
+                                            for o in mach.outs):
+                # an output lives in the dose compartment that a direct route does
+                # not have: whether the call is refused or the output dropped is
+                # not documented, but a refused call leaves the model as it was
+                before_d = obs_key(observe(m))
+                try:
+                    m.set_administration(comp, amount_var=K['amount'][comp],
+                                         direct=True)
+                except (KeyError, ValueError):
+                    after_d = obs_key(observe(m))
+                    if obs_diff(after_d, before_d):
+                        viol.append({'sub': 'rejected_changed', 'message': 'a '
+                                     'refused set_administration call (an output '
+                                     'lives in the dose compartment) changed the '
+                                     'model (after %s)' % hist_label,
+                                     'expected': strip(before_d),
+                                     'observed': strip(after_d),
+                                     'behaviour': 'rejected_changed'})
+                    return m
+                mach.outs = to_myokit_outputs(kind, m.outputs())
+                mach.adm = {'compartment': comp, 'direct': True}
+                mach.sens = False
+                mach.names_unknown = True
+                return m
             m.set_administration(comp, amount_var=K['amount'][comp], direct=direct)
             mach.adm = {'compartment': comp, 'direct': direct}
             mach.sens = False
@@ -179,12 +207,40 @@ def apply_op(kind, m, mach, op, others, viol, hist_label):
             m.set_dosing_regimen(protocol(REG2_EVENTS))
             mach.reg = REG2_EVENTS
         elif op in ('out1', 'out2', 'out3'):
-            m.set_outputs(list(K[op]))
+            # (the list stays the caller's: what is done to it afterwards is no
+            # configuration call)
+            given = list(K[op])
+            m.set_outputs(given)
+            given.reverse()
+            given.append('appended by the caller')
             # a user-given output name survives only while the output stays selected
             mach.ren_o = mach.ren_o and K['renO'][0] in K[op] and (
                 mach.outs is None or K['renO'][0] in mach.outs)
             mach.outs = list(K[op])
             mach.sens = False
+        elif op == 'outD':
+            # the amount in the dose compartment: exists with an indirect route only
+            if mach.adm is not None and not mach.adm['direct']:
+                m.set_outputs(['dose.drug_amount'])
+                mach.ren_o = False
+                mach.outs = ['dose.drug_amount']
+                mach.sens = False
+            else:
+                before_o = obs_key(observe(m))
+                try:
+                    m.set_outputs(['dose.drug_amount'])
+                    viol.append({'sub': 'out_accepted', 'message': 'set_outputs '
+                                 'accepted a variable the model does not have',
+                                 'expected': 'KeyError', 'observed': 'accepted'})
+                except KeyError:
+                    after_o = obs_key(observe(m))
+                    if obs_diff(after_o, before_o):
+                        viol.append({'sub': 'rejected_changed', 'message': 'a '
+                                     'refused set_outputs call changed the model '
+                                     '(after %s)' % hist_label,
+                                     'expected': strip(before_o),
+                                     'observed': strip(after_o),
+                                     'behaviour': 'rejected_changed'})
         elif op == 'renP':
             m.set_parameter_names({K['renP'][0]: K['renP'][1]})
         elif op == 'renChain':
@@ -415,6 +471,11 @@ def red_probe(rm, fixed_pos, n_full):
 
 
 def red_observe(rm, fixed_pos, n_full):
+    # (name lists handed out are the caller's: extending one is not a configuration
+    # call and must not show below)
+    for lst in (rm.parameters(), rm.outputs()):
+        if isinstance(lst, list):
+            lst.append('appended by the caller')
     obs = {'reg': reg_events(rm), 'outputs': rm.outputs(),
            'params': rm.parameters(), 'n_par': rm.n_parameters(),
            'n_out': rm.n_outputs(), 'sens': bool(rm.has_sensitivities()),
@@ -480,7 +541,10 @@ def w_red_history(case):
             rm.set_dosing_regimen(protocol(REG2_EVENTS))
             mach['reg'] = REG2_EVENTS
         elif op in ('out1', 'out2'):
-            rm.set_outputs(list(K[op]))
+            given = list(K[op])
+            rm.set_outputs(given)
+            given.reverse()
+            given.append('appended by the caller')
             mach['outs'] = list(K[op])
             mach['sens'] = False
         elif op == 'sensOn':
@@ -647,7 +711,8 @@ def make_red_search(kind, depth, tail=1):
 
 
 def _ops(kind):
-    ops = ['admD', 'admI', 'badAdm', 'reg1', 'reg2', 'out1', 'out2', 'out3', 'renP',
+    ops = ['admD', 'admI', 'badAdm', 'reg1', 'reg2', 'out1', 'out2', 'out3', 'outD',
+           'renP',
            'renChain', 'renO', 'sensOn', 'sensSub', 'sensOff', 'sim', 'copyC',
            'copyO']
     if kind == 'chain2':
@@ -669,10 +734,62 @@ def make_search(kind, depth, seeds, tail=1):
     return run
 
 
+WORKERS['library'] = None
 for _k in KINDS:
     WORKERS['histories_' + _k] = w_history
     WORKERS['reduced_' + _k] = w_red_history
     WORKERS['all_histories_' + _k] = w_history
+
+
+LIB_MODELS = ['one_compartment_pk_model', 'erlotinib_tumour_growth_inhibition_model',
+              'tumour_growth_inhibition_model_koch',
+              'tumour_growth_inhibition_model_koch_reparametrised']
+
+
+def w_library(case):
+    """Models handed out by ONE ModelLibrary object are fresh: configuring the first
+    one does not show in the second one."""
+    lib = chi.library.ModelLibrary()
+    viol = []
+    first = getattr(lib, case['model'])()
+    pk = case['model'] in LIB_MODELS[:2]
+    for op in case['ops']:
+        if op == 'adm' and pk:
+            first.set_administration('central', direct=False)
+        elif op == 'reg' and pk:
+            if first.administration() is None:
+                first.set_administration('central')
+            first.set_dosing_regimen(2.0, start=0.3, duration=0.2)
+        elif op == 'ren':
+            first.set_parameter_names({first.parameters()[-1]: 'renamed'})
+        elif op == 'out':
+            first.set_outputs([first.outputs()[0]])
+            first.set_output_names({first.outputs()[0]: 'y'})
+        elif op == 'sens':
+            first.enable_sensitivities(True)
+        elif op == 'sim':
+            first.simulate([0.7 + 0.1 * k_ for k_ in range(first.n_parameters())],
+                           PROBE_TIMES)
+    second = getattr(lib, case['model'])()
+    pristine = getattr(chi.library.ModelLibrary(), case['model'])()
+
+    def look(m):
+        o = {'params': m.parameters(), 'outputs': m.outputs(),
+             'sens': bool(m.has_sensitivities()),
+             'adm': m.administration() if pk else None,
+             'reg': reg_events(m) if pk else None}
+        y = m.simulate([0.6 + 0.07 * k_ for k_ in range(m.n_parameters())],
+                       PROBE_TIMES)
+        o['y'] = tol.rnd(np.asarray(y[0] if isinstance(y, tuple) else y), 7)
+        return o
+    a, b = look(second), look(pristine)
+    if a != b:
+        viol.append({'sub': 'library_fresh', 'message': 'the second %s handed out by '
+                     'one ModelLibrary object is not a fresh model after the first '
+                     'one was configured (%s)' % (case['model'], case['ops']),
+                     'expected': b, 'observed': a, 'behaviour': 'library_fresh'})
+    return {'transitions': len(case['ops']) + 4, 'outcome': key_of(a),
+            'violations': viol}
 
 
 def make_exhaustive(kind, depth):
@@ -708,8 +825,19 @@ def build(tier, seed):
                     make_search('lib2', 10, seeds[:2]),
                     make_red_search('lib1', 5, 2), make_red_search('chain2', 4),
                     make_exhaustive('lib1', 4), make_exhaustive('chain2', 3)]
+    lib_cases = []
+    for model in LIB_MODELS:
+        for r in (1, 2):
+            for ops in itertools.permutations(['adm', 'reg', 'ren', 'out', 'sens',
+                                               'sim'], r):
+                lib_cases.append({'model': model, 'ops': list(ops)})
+    from ..core.engine import Part
+    WORKERS['library'] = w_library
     return {
-        'parts': [],
+        'parts': [Part('library', lib_cases, w_library,
+                       'two models from one ModelLibrary object, the first one '
+                       'configured by every sequence of <= 2 operations before the '
+                       'second is requested')],
         'searches': searches,
         'bounds': {'depth': 3 if tier == 'quick' else '10 (search stops at closure: no new canonical state)',
                    'ops': _ops('chain2'), 'seeds': seeds},
